@@ -298,3 +298,16 @@ Proof.
   - rewrite reverse_latin1_spec; [|unfold jsonl_blocksize; lia|exact H].
     rewrite next_all_eq. reflexivity.
 Qed.
+
+(* text-mode file in a line-break compatible single-byte encoding *)
+Theorem jsonl_table {obj} (loads_text : text -> option obj) (tbl : sb_table) :
+  table_ok tbl = true -> (forall s, loads_text (s ++ [LF]) = loads_text s) ->
+  forall c t ie, sb_decode tbl c = Some t -> no_lone_cr t = true ->
+  jsonl_iter loads_text (TextTable tbl) ie false c = Ok (jsonl_forward_spec loads_text is_ws_str ie t) /\
+  jsonl_iter loads_text (TextTable tbl) ie true c = Ok (jsonl_reverse_spec loads_text is_ws_str ie t).
+Proof.
+  intros OK L c t ie D H. split; cbn [jsonl_iter].
+  - rewrite D. f_equal. apply (forward_text loads_text is_ws_str eq_refl L ie t H).
+  - rewrite (reverse_table_spec tbl OK c t); [|unfold jsonl_blocksize; lia|exact D|exact H].
+    rewrite next_all_eq. reflexivity.
+Qed.
